@@ -392,7 +392,8 @@ def check(ctx):
             ("l23", (ctx.seed, 2, ctx.pick(2, 3), 2)), ("l23", (ctx.seed + 5, 1, 3, 3)), ("l23", (ctx.seed + 2, 2, 2, 2)),
             ("l3f", ctx.seed), ("l4", None), ("l5", ctx.seed)]
     if ctx.thorough:
-        jobs += [("l23", (ctx.seed + k, 3, 3, 1)) for k in (1, 2)] + [("l23", (ctx.seed + k, 2, 3, 2)) for k in (3, 7, 9)]
+        # runs up to 3 options (40 runs, 1600 entries per state) to depth 2; more alphabets at depth 3
+        jobs += [("l23", (ctx.seed + k, 3, 2, 1)) for k in (1, 6)] + [("l23", (ctx.seed + k, 2, 3, 2)) for k in (3, 4, 7, 8, 9, 10, 11)]
     out = core.pmap(_run, jobs, 1)
     viols = []
     for o in out:
